@@ -69,7 +69,14 @@ def ndarray2utpm(A):
     from .globalfuncs import zeros
     shp = numpy.shape(A)
     A = numpy.ravel(A)
-    retval = zeros(shp,dtype=A[0])
+    # the prototype is the first element that is a polynomial (constants may
+    # come first)
+    proto = A[0]
+    for a in A:
+        if isinstance(a, (algopy.UTPM, algopy.Function)):
+            proto = a
+            break
+    retval = zeros(shp,dtype=proto)
     # the coefficient dtype that holds every element (not only the first one)
     dt = numpy.result_type(retval.data.dtype, *[a.data.dtype if isinstance(a, retval.__class__) else numpy.asarray(a).dtype for a in A])
     if dt != retval.data.dtype:
